@@ -24,7 +24,7 @@ func (c19) Info() core.Info {
 	return core.Info{
 		Level: "exploration",
 		Rule: "two modes. (1) dedicated histories: constants of every value type (int, float, string, bool, nil, function, arrays and maps on both sides of the 8-element / 4-pair thresholds) are bound and then attacked by " +
-			"PRNG-chosen sequences of mutation attempts of every syntactic kind (C = v, C := v, C++/++C/C--/--C, C[i] = v, C.k = v, del(C.k), for C = n, for C = list, C as parameter name, assignment from nested functions and loops, C = C + [x], " +
+			"PRNG-chosen sequences of mutation attempts of every syntactic kind (C = v, C := v, C++/++C/C--/--C, C[i] = v, C.k = v, del(C.k), for C = n, for C = list, loops whose first value equals the constant's own value (for C = v:v+3, for C = [v, ...]; an integer constant bound to 0 with for C = n), the same as the ninth nested integer loop (no register left), function-local constants bound, attacked and read back inside one call, C as parameter name, assignment from nested functions and loops, C = C + [x], " +
 			"attempts wrapped in catch(), mutation through an alias 'tmp = C; tmp[i] = v', through a mutating callee, and a deadline fault inside 'C[i] = slow(v)'), interleaved with explicit del(C) + re-binding; " +
 			"every history runs on two real sessions (registers on / off) and after EVERY attempt the constant is re-observed: it must equal its binding value unless that input explicitly deleted it, and the outcome class must be the same in both modes. " +
 			"(2) monitor mode: general generated sessions with many constants; every upper-case name ever bound is re-observed after every later input. " +
@@ -67,6 +67,7 @@ func mapVal(n int, base int64) *val {
 func c19Consts(r *core.Rng) []constSpec {
 	all := []constSpec{
 		{name: "CI", v: vint(int64(r.Intn(1000)))},
+		{name: "CZ", v: vint(0)},
 		{name: "CF", raw: "1.5"},
 		{name: "CFI", raw: "2.0"},
 		{name: "CS", v: &val{kind: "str", s: "const"}},
@@ -161,6 +162,21 @@ func c19Attempt(kind string, c constSpec, n int64) (string, bool) {
 		return fmt.Sprintf("for %s = 3 { }", C), true
 	case "loop-list":
 		return fmt.Sprintf("for %s = [7, 8, 9] { }", C), true
+	case "loop-int-self":
+		// the loop's first value is the constant's own value: re-binding to an equal value is allowed, the following
+		// iterations are not
+		if k == "int" {
+			return fmt.Sprintf("for %s = %d:%d { }", C, c.v.i, c.v.i+3), true
+		}
+	case "loop-int-deep":
+		// nine nested integer loops: the innermost loop variable cannot get one of the 8 registers of the environment
+		if k == "int" {
+			return fmt.Sprintf("for la9 = 1 { for lb9 = 1 { for lc9 = 1 { for ld9 = 1 { for le9 = 1 { for lf9 = 1 { for lg9 = 1 { for lh9 = 1 { for %s = %d:%d { } } } } } } } } }", C, c.v.i, c.v.i+3), true
+		}
+	case "loop-list-self":
+		if k == "int" {
+			return fmt.Sprintf("for %s = [%d, %d, %d] { }", C, c.v.i, c.v.i+1, c.v.i+2), true
+		}
 	case "param":
 		return fmt.Sprintf("((%s) => 1)(%s)", C, other), true
 	case "param-func":
@@ -222,7 +238,7 @@ func c19Attempt(kind string, c constSpec, n int64) (string, bool) {
 }
 
 var c19Kinds = []string{"assign", "define", "incr-post", "incr-pre", "decr-post", "decr-pre", "idx-assign", "dot-assign", "new-key", "del-elem", "del-elem-idx",
-	"loop-int", "loop-list", "param", "param-func", "nested-assign", "nested-define", "nested-idx", "loop-assign", "self-append", "catch-assign",
+	"loop-int", "loop-list", "loop-int-self", "loop-int-deep", "loop-list-self", "param", "param-func", "nested-assign", "nested-define", "nested-idx", "loop-assign", "self-append", "catch-assign",
 	"alias-idx", "callee-mutates", "nested-elem", "slow-idx", "same-value", "equal-other-type"}
 
 func (c19) Generate(r *core.Rng, run int, tier string) *core.History {
@@ -267,6 +283,19 @@ func (c19) Generate(r *core.Rng, run int, tier string) *core.History {
 			h.Events = append(h.Events, core.Event{Ev: "bind", Name: c.name, Text: c.name + " = " + c.literal(), Key: c.kind(), Val: c.sizeClass()})
 			continue
 		}
+		if r.Bool(.06) {
+			// a constant local to a function: bound, attacked and read back inside one call
+			v := int64(r.Intn(4))
+			attack := core.Pick(r, []string{
+				fmt.Sprintf("for KL = %d:%d { }", v, v+3),
+				fmt.Sprintf("for KL = %d { }", v+3),
+				fmt.Sprintf("for la9 = 1 { for lb9 = 1 { for lc9 = 1 { for ld9 = 1 { for le9 = 1 { for lf9 = 1 { for lg9 = 1 { for lh9 = 1 { for KL = %d:%d { } } } } } } } } }", v, v+3),
+				"KL++", "KL = KL + 1", fmt.Sprintf("for KL = [%d, %d] { }", v, v+1), "(() => { KL = 77 })()", "for 2 { KL += 1 }",
+			})
+			h.Events = append(h.Events, core.Event{Ev: "local", Tag: "local", N: v,
+				Text: fmt.Sprintf("func lk9() { KL = %d; catch((() => { %s })()); KL }\nlk9()", v, attack)})
+			continue
+		}
 		kind := core.Pick(r, c19Kinds)
 		src, ok := c19Attempt(kind, c, int64(i))
 		if !ok {
@@ -305,6 +334,9 @@ func (c c19) Execute(h *core.History) *core.Outcome {
 	var firstKnown *core.Violation
 	for i := range h.Events {
 		e := &h.Events[i]
+		if e.Ev == "local" && !(strings.HasPrefix(e.Text, "func lk9() { KL = "+fmt.Sprint(e.N)+";") && strings.HasSuffix(e.Text, "KL }\nlk9()")) {
+			continue // (after shrinking) not the recorded shape any more
+		}
 		if _, isBound := bound[e.Name]; e.Ev == "attempt" && !isBound {
 			continue // (after shrinking) an attempt on a name that is not a bound constant is no attempt
 		}
@@ -333,6 +365,19 @@ func (c c19) Execute(h *core.History) *core.Outcome {
 			continue
 		case "delete":
 			delete(bound, e.Name)
+			continue
+		case "local":
+			// the call either fails or returns the value the local constant was bound to
+			st.Nontrivial = true
+			for mi, r := range []*world.InRes{&a, &b} {
+				if r.Class == "value" && strings.TrimSpace(r.Echo) != fmt.Sprint(e.N) && o.Viol == nil {
+					o.Viol = &core.Violation{Oracle: "constant-changed", Event: i, Sig: "C19|changed|local",
+						Detail: fmt.Sprintf("%q (registers %s): the function-local constant KL bound to %d reads %s afterwards", e.Text, []string{"on", "off"}[mi], e.N, trunc(r.Echo, 100))}
+				}
+			}
+			if o.Viol != nil {
+				break
+			}
 			continue
 		}
 		if e.Val != "scalar" || strings.HasPrefix(e.Tag, "nested") || strings.HasPrefix(e.Tag, "loop") {
